@@ -318,6 +318,9 @@ fn check_valid(ctx: &Ctx, nodes: &[Node], what: &str) -> bool {
                 false
             } else {
                 ctx.count("valid_programs_compared", 1);
+                if what == "base" {
+                    crate::props::variants::check_one(ctx, nodes, b, &mut Rng::for_case(fw::hash_str(&src), 0x7A80, 0), "sym");
+                }
                 true
             }
         }
@@ -602,12 +605,15 @@ pub fn run(ctx: &Ctx) -> i32 {
     });
     fw::finish(
         ctx,
-        "programs of 5-40 steps defining and using code/data/EEPROM labels, .equ (chained, forward-defined), .set (reassignment chains incl. `v = v + k`) and .def/.undef/.def aliases, every definition and reference in independently random letter case, referenced from ldi low()/high(), lds/sts, rjmp/rcall/jmp/call and .dw/.dd; per program all single-symbol mutants: delete each referenced definition, duplicate each label, define each .equ a second time with another value, each label also by .equ and each .equ also as a label, redefine each live alias on another register (refused, or rebound - never the old register), use each alias after its .undef (also after an .undef that names two aliases), give each referenced name also to a #define (before everything else or after it, in the same or another letter case), a label and an .equ named pc, a .def named like a register, reference names that stand only in unassembled text (unselected branch, labels in front of the directives of a chain nested in it, `.else` after a taken branch), undefined names in data/instruction/alias position (all must fail), and every alias replaced by its register (identical image); counters lookup:* = LOOKUP hook events by answering table; distinct_nontrivial = distinct base program texts",
+        "programs of 5-40 steps defining and using code/data/EEPROM labels, .equ (chained, forward-defined), .set (reassignment chains incl. `v = v + k`) and .def/.undef/.def aliases, every definition and reference in independently random letter case, referenced from ldi low()/high(), lds/sts, rjmp/rcall/jmp/call and .dw/.dd; per program all single-symbol mutants: delete each referenced definition, duplicate each label, define each .equ a second time with another value, each label also by .equ and each .equ also as a label, redefine each live alias on another register (refused, or rebound - never the old register), use each alias after its .undef (also after an .undef that names two aliases), give each referenced name also to a #define (before everything else or after it, in the same or another letter case), a label and an .equ named pc, a .def named like a register, reference names that stand only in unassembled text (unselected branch, labels in front of the directives of a chain nested in it, `.else` after a taken branch), undefined names in data/instruction/alias position (all must fail), and every alias replaced by its register (identical image); counters lookup:* = LOOKUP hook events by answering table; every valid program once more in one randomly chosen setting that means nothing (as a file beginning with blank lines / CRLF / no final line end; a run of top-level lines in an included file; inside a selected branch; followed by .exit and unread text; preceded by unused definitions; respelled; branch and included file at once) with the same images, sizes, RAM extent and message texts required (props/variants.rs; counters variants:*); distinct_nontrivial = distinct base program texts",
         &["refmodel/layout.rs binding rules (labels and .equ global and lazy, .set sequential in source order, .def live from definition to .undef)", "a second .def of a live alias without .undef may be refused or rebind the alias (both documented behaviours); silently keeping the old register is a violation"],
     )
 }
 
 pub fn replay(ctx: &Ctx, case: &Value) -> i32 {
+    if case.get("variant").is_some() {
+        return crate::props::variants::replay(ctx, case);
+    }
     let src = case["source"].as_str().unwrap_or("");
     let out = fw::build_str(src);
     ctx.eval(1);
